@@ -510,6 +510,7 @@ def inRd : PyVal → Bool
   | .dict cls kvs => clsOk cls && inRdP kvs
   | .call f args kwargs => (okName f.2 || fsetLit f args kwargs || floatPh f args kwargs) && inRdL args && inRdK kwargs
   | .ident parts => (identPh parts).isSome
+  | .path cls _ => okName cls.2
   | _ => false
 def inRdL : List PyVal → Bool
   | [] => true
@@ -549,6 +550,7 @@ def erase : PyVal → RVal
   | .dict cls kvs => wrapNE cls kvs.isEmpty (.dict (eraseP kvs))
   | .call f args kwargs => callR (fsetLit f args kwargs) f.2 (eraseL args ++ eraseK kwargs)
   | .ident parts => (identPh parts).getD (.kw [])
+  | .path cls posix => .call cls.2 [.str false (cps posix)]
   | _ => .kw []
 def eraseL : List PyVal → List RVal
   | [] => []
@@ -1553,7 +1555,11 @@ theorem canon_reads : (v : PyVal) → inRd v = true → ∀ (ctx : Ctx), Free ct
       simp only [canonW, erase, need, hr, Option.getD_some]
       exact identPh_read parts r hr
   | .timedelta _ _ _, h, _, _, _, _ => by simp [inRd] at h
-  | .path _ _, h, _, _, _, _ => by simp [inRd] at h
+  | .path cls posix, h, ctx, hf, tr, _ => by
+      -- a pure path: the class applied to the string `as_posix()` gives
+      simp only [inRd] at h
+      simp only [canonW, hf.depthZero, Bool.false_eq_true, if_false, erase, need]
+      exact (wrap_read cls h _ _ 1 (str_read false (cps posix))).mono (by omega)
 
 theorem elemPairs_ok : (xs : List PyVal) → inRdL xs = true → ∀ (ctx : Ctx), Free ctx →
     ∀ q ∈ elemPairs ctx xs, ElemOk q.1 q.2 (needL xs)
